@@ -1,9 +1,16 @@
+#include <stddef.h>
+#include "scpi/config.h"
+#include "scpi/types.h"
 /* ghost state definitions (one per harness translation unit) */
 size_t gh_out_len; size_t gh_out_calls; size_t gh_watch; char gh_watch_val; char gh_out_last; char gh_out_first;
 const char *gh_last_data; size_t gh_last_len;
-int gh_flushes; int gh_err_n; int gh_err_last; int gh_srq_n; unsigned gh_srq_val; int gh_reset_n;
-size_t gh_w; size_t gh_nul; int gh_free_n; void *gh_free_last; void *gh_free_prev; size_t gh_dup_len;
+unsigned gh_flushes; unsigned gh_err_n; int gh_err_last; unsigned gh_srq_n; unsigned gh_srq_val; unsigned gh_reset_n;
+size_t gh_w; size_t gh_nul; unsigned gh_free_n; void *gh_free_last; void *gh_free_prev; size_t gh_dup_len;
 unsigned short gh_k;
 int gh_case;
 int gh_trunc; size_t gh_fmt_need;
 int gh_conv_zero;
+unsigned gh_handler_calls; const struct _scpi_command_t *gh_h_cmd; const char *gh_h_raw; size_t gh_h_rawlen; char *gh_h_pbuf; int gh_h_plen; size_t gh_j; size_t gh_ncmd;
+char *gh_buf; size_t gh_buflen;
+scpi_result_t gh_h_ret; scpi_bool_t gh_h_cmderr; scpi_bool_t gh_h_unread; int gh_h_items;
+unsigned gh_parse_calls;
